@@ -256,6 +256,30 @@ func runPlainReader(text string) result {
 	})
 }
 
+func runListReader(text string, hard bool) result {
+	return safeRun(10*time.Second, func() (string, error) {
+		rs, err := fastaio.ReadEncodeAlignmentToList(strings.NewReader(text), hard)
+		if err != nil {
+			return "", err
+		}
+		var recs []string
+		for _, fr := range rs {
+			recs = append(recs, renderEFR(fr, false))
+		}
+		return strings.Join(recs, sepRS), nil
+	})
+}
+
+func runFindReference(text string, refid string) result {
+	return safeRun(10*time.Second, func() (string, error) {
+		fr, err := variants.VerifFindReference(strings.NewReader(text), refid)
+		if err != nil {
+			return "", err
+		}
+		return renderEFR(fr, false), nil
+	})
+}
+
 func execC16(r *RNG, c *Case) {
 	text := c.Get("text")
 	hard := c.Get("hard") == "1"
@@ -263,24 +287,8 @@ func execC16(r *RNG, c *Case) {
 		goField(runPlainReader(text)),
 		goField(runEncReader(text, hard, false)),
 		goField(runEncReader(text, hard, true)),
-		goField(safeRun(10*time.Second, func() (string, error) {
-			rs, err := fastaio.ReadEncodeAlignmentToList(strings.NewReader(text), hard)
-			if err != nil {
-				return "", err
-			}
-			var recs []string
-			for _, fr := range rs {
-				recs = append(recs, renderEFR(fr, false))
-			}
-			return strings.Join(recs, sepRS), nil
-		})),
-		goField(safeRun(10*time.Second, func() (string, error) {
-			fr, err := variants.VerifFindReference(strings.NewReader(text), c.Get("refid"))
-			if err != nil {
-				return "", err
-			}
-			return renderEFR(fr, false), nil
-		})),
+		goField(runListReader(text, hard)),
+		goField(runFindReference(text, c.Get("refid"))),
 	}
 	c.Set("go", strings.Join(outs, sepFS))
 }
